@@ -13,7 +13,7 @@ META = dict(
           'sandbox function address of another signature} x sources {raw T*, const T*, raw function pointer, array / std::array of raw pointers, tainted / opaque / '
           'callback of ANOTHER sandbox type, plain struct holding a pointer, lambda, functor}; register_callback with 16 malformed signatures (no sandbox parameter, '
           'sandbox by value / pointer / const ref, plain parameter in each position, array parameter, tainted_volatile parameter, plain / hint return, wrappers of another '
-          'sandbox type). Every program must be rejected by the compiler with RLBox compile checks ON; positive controls of the same shapes with legal sources must be '
+          'sandbox type). Every program is compiled against the model backend twice (16-bit and pointer-wide 64-bit pointer representation) and must be rejected by the compiler with RLBox compile checks ON; positive controls of the same shapes with legal sources must be '
           'accepted. (b) assign_raw_pointer on tainted and tainted_volatile and UNSAFE_accept_pointer for every address of [base-4096, base+64KiB+4096), null, the other '
           'live instance, stack/heap/code and aliasing addresses, mask and registry modes: abort iff outside, exact value otherwise. states = grid programs + 1, '
           'transitions = programs compiled + run-time evaluations.'),
